@@ -630,7 +630,7 @@ func c32Gen(t *rapid.T, real bool) *c32Case {
 		r.desc = rapid.IntRange(0, 3).Draw(t, "desc") == 0
 		for _, b := range r.blocks {
 			just := c.justified[b]
-			if just && real && rapid.IntRange(0, 3).Draw(t, "withoutJustification") == 0 {
+			if just && real && r.completed && rapid.IntRange(0, 3).Draw(t, "withoutJustification") == 0 {
 				just = false
 				r.noJust = append(r.noJust, b)
 			}
